@@ -4,10 +4,11 @@ package codon
 
 // C07: optimized coding sequences translate back to the requested protein.
 //
-// verif:bound C07 round-trip clause: default tables 1, 2, 11 (quick) / all 25 (thorough), proteins of 1..2 letters over the table's own letters, every value of every rand.Intn draw
+// verif:bound C07 re-weighting clause: a default table re-weighted from a one-alanine coding sequence, optimised, re-weighted again and optimised again (all 4x4 alanine codon choices, 3x3 stop codons)
+// verif:bound C07 round-trip clause: default tables 1, 2, 11, 27, 31 (quick) / all 25 (thorough), proteins of 1..2 letters over the table's own letters, every value of every rand.Intn draw
 // verif:bound C07 no-crash clause: proteins of 1..2 bytes over all 128 ASCII values on tables 1 and 11: error or a correct result, never a panic
 // verif:bound C07 threshold clause: one amino acid with 2 (quick) / 3 (thorough) synonymous codons, symbolic weights 0..15 (quick) / 0..63 (thorough): every emitted codon has 10*w > sum(w) and w > 0; an amino acid whose synonyms all have weight 0 is rejected with an error
-// verif:bound C07 random-protein clause: random.ProteinSequence of length 3 (quick) / 3..5 (thorough) for every value of its rand.Intn draws, optimised under tables 1, 11 (quick) / all 25 (thorough)
+// verif:bound C07 random-protein clause: random.ProteinSequence of length 3 (quick) / 3..4 (thorough) for every value of its rand.Intn draws, optimised under tables 1, 11 (quick) / 1, 2, 11, 27, 31 (thorough)
 // verif:assume C07 math/rand.Intn(n) returns an arbitrary value in [0,n) and panics for n <= 0; rand.Seed and the clock have no effect
 // verif:bound C07 exact threshold clause: 2 synonyms with weights enumerated 0..20 (thorough: second weight also in multiples of 9), 3 synonyms 0..6 (quick) / 0..12 (thorough): real float64 arithmetic, all rand.Intn draws symbolic
 // verif:assume C07 threshold clause: float64 division and comparison in chooser() are abstracted to real arithmetic (rounding is outside the claim)
@@ -32,7 +33,7 @@ func c07TableID() int {
 	if vTier(0, 1) == 1 {
 		return ncbiIDs[vChoice(len(ncbiIDs))]
 	}
-	return []int{1, 2, 11}[vChoice(3)]
+	return []int{1, 2, 11, 27, 31}[vChoice(5)]
 }
 
 func Harness_C07_RoundTrip() {
@@ -154,14 +155,35 @@ func Harness_C07_ThresholdExact() {
 	vCover("C07 a codon with a share of exactly ten percent", k == 2 && sum > 0 && 10*w[0] == sum)
 }
 
+// a table that is re-weighted, used, re-weighted again and used again: the second optimisation
+// must follow the second weights (no chooser state may survive)
+func Harness_C07_ReweightTwice() {
+	id := []int{1, 11}[vChoice(2)]
+	aCodons := []string{"GCT", "GCC", "GCA", "GCG"}
+	first := aCodons[vChoice(4)]
+	second := aCodons[vChoice(4)]
+	stop1 := []string{"TAA", "TAG", "TGA"}[vChoice(3)]
+	stop2 := []string{"TAA", "TAG", "TGA"}[vChoice(3)]
+	table := GetCodonTable(id).OptimizeTable("ATG" + first + first + stop1)
+	d1, e1 := Optimize("MA*", table)
+	vAssert(e1 == nil, "first-optimisation-accepted")
+	vAssert(d1 == "ATG"+first+stop1, "first-optimisation-uses-the-only-weighted-codons")
+	table2 := table.OptimizeTable("ATG" + second + stop2)
+	d2, e2 := Optimize("MA*", table2)
+	vAssert(e2 == nil, "second-optimisation-accepted")
+	vAssert(d2 == "ATG"+second+stop2, "second-optimisation-follows-the-second-weights")
+	_, e3 := Optimize("MAK", table2)
+	vAssert(e3 != nil, "residue-without-weight-is-rejected")
+}
+
 func Harness_C07_RandomProtein() {
-	length := 3 + vChoice(vTier(1, 3))
+	length := 3 + vChoice(vTier(1, 2))
 	p, err := random.ProteinSequence(length, int64(vSeed()))
 	vAssert(err == nil, "generator-accepts-length")
 	vAssert(len(p) == length, "generator-length")
 	id := 1
 	if vTier(0, 1) == 1 {
-		id = ncbiIDs[vChoice(len(ncbiIDs))]
+		id = []int{1, 2, 11, 27, 31}[vChoice(5)]
 	} else {
 		id = []int{1, 11}[vChoice(2)]
 	}
